@@ -10,6 +10,7 @@ class PDAObjectCreator:
     def __init__(self, terminals, variables):
         self._inverse_symbol = {}
         self._inverse_stack_symbol = {}
+        self._used_stack_symbols = set()
         for terminal in terminals:
             self._inverse_symbol[terminal] = None
             self._inverse_stack_symbol[terminal] = None
@@ -36,6 +37,11 @@ class PDAObjectCreator:
             if isinstance(stack_symbol, cfg.Terminal):
                 value = "#TERM#" + value
             temp = pda.StackSymbol(value)
+            while temp in self._used_stack_symbols:
+                # Two different objects never share a stack symbol
+                value += "'"
+                temp = pda.StackSymbol(value)
+            self._used_stack_symbols.add(temp)
             self._inverse_stack_symbol[stack_symbol] = temp
             return temp
         return self._inverse_stack_symbol[stack_symbol]
